@@ -7,7 +7,8 @@ TEXT = ('Parameter::update copies raw_value to previous_raw_value first, dominat
         'update_tween (time >= duration) leaves Idle{value: *target} and Idle yields the target\'s raw value unmodified; '
         'Parameter::set starts from the current value with time 0 and clears stagnant; stagnant is only set on the finish '
         'edge for fixed targets; Parameter::update_tween and Tweener::update (two hand-maintained copies) agree on start-time '
-        'handling, time accumulation and the finish comparison. Interpolation values and easing curves are not decided.')
+        'handling, time accumulation and the finish comparison. Interpolation values and easing curves are not decided.'
+        ' Every Parameter field is updated per chunk and receives its command reader; clock start times are due exactly when Info::when_to_start says so.')
 TECHNIQUE = 'MIR dominance / path-predicate / sibling-agreement rules'
 
 P = 'parameter::Parameter::<T>'
@@ -66,6 +67,41 @@ def run(ctx, R, tier):
     # Info::when_to_start says so (ticking and clock time >= start time, fraction included) -- the C05 rule
     from . import c05
     c05.when(F, R)
+    c05.start_time_rule(F, R)
+    cover(F, R)
+
+
+def cover(F, R):
+    """Every Parameter the audio side owns is driven: each struct field of type Parameter<_> has a site that calls
+    Parameter::update on it (otherwise its tween never advances and a handle's setter has no effect) and, unless it is the
+    internally driven pause fade, a site that hands it its command reader (Parameter::read_command)."""
+    from .c07 import origin_pl, last_field
+    fields = set()
+    for path, a in F.adts.items():
+        if a['kind'] != 'Struct' or not a.get('file', '').startswith('crates/kira/'):
+            continue
+        for f in a['variants'][0]['fields']:
+            if f['ty'] == 'parameter::Parameter' or f['ty'].startswith('parameter::Parameter<'):
+                fields.add((path, f['name']))
+    upd, rc = set(), set()
+    for b in F.bodies:
+        if b.krate != 'kira':
+            continue
+        for bb, t in b.calls():
+            cp = callee_path(t) or ''
+            if cp in (P + '::update', P + '::read_command'):
+                lf = last_field(origin_pl(b, t['args'][0]) or {})
+                if lf:
+                    (upd if cp.endswith('::update') else rc).add((lf[1], lf[0]))
+    for adt, f in sorted(fields):
+        R.check((adt, f) in upd, 'B.C06.cover', '%s.%s:update' % (adt, f),
+                'Parameter %s.%s is never updated: a tween set on it never advances (the handle setter has no effect)' % (adt, f),
+                detail={'field': '%s.%s' % (adt, f)}, where=F.adts[adt]['file'])
+        if f != 'volume_fade':
+            R.check((adt, f) in rc, 'B.C06.cover', '%s.%s:read_command' % (adt, f),
+                    'Parameter %s.%s never receives its command reader: its setter command is never applied' % (adt, f),
+                    detail={'field': '%s.%s' % (adt, f)}, where=F.adts[adt]['file'])
+    R.floor('B.C06.cover', len(fields), 41)
 
 
 def prev(F, R):
